@@ -10,6 +10,8 @@ C->S : spec/Trace_Types.tla evaluates the laws (Doc) on the recorded tables.
 """
 
 import json
+import os
+import shutil
 
 from .. import pool, tlc, typeuniv, workers
 from ..report import Report
@@ -21,7 +23,7 @@ def judge_tables(T, rows):
     n = len(T)
     order = [rows[str(i)]["order"] for i in range(1, n + 1)]
     subtt = [rows[str(i)]["subtt"] for i in range(1, n + 1)]
-    tab = {"types": T, "order": order, "subtt": subtt, "parents": typeuniv.PARENTS, "attrs": typeuniv.ATTRS,
+    tab = {"types": T, "order": order, "subtt": subtt, "parents": typeuniv.PARENTS, "attrs": typeuniv.ATTRS, "equiv": typeuniv.EQUIV,
            "rows": [{k: v for k, v in rows[str(i)].items() if k in ("clssub", "dispatch")} for i in range(1, n + 1)],
            "rowids": {str(i): 1 for i in range(1, n + 1)}}
     return tab
@@ -66,7 +68,6 @@ def run(prop, tier, seed, replay=None):
     tab = judge_tables(T, rows)
     ids = [{"id": f"r{i}"} for i in range(1, n + 1)]
     # the judge takes the whole table as one object; tlc.judge wants a list of cases -> wrap
-    import os, shutil
     d = tlc.scratch_dir("types")
     path = os.path.join(d, "tab.json")
     with open(path, "w") as f:
@@ -105,6 +106,40 @@ def run(prop, tier, seed, replay=None):
             rep.rejected(rej["clause"], {"kind": "type_pair", **pair, "types": T},
                          {"a": T[i - 1], "b": T[j - 1] if j else None, "T": T, "i": i, "j": j,
                           "oab": pair["order_ab"], "oba": pair["order_ba"]})
+    if prop == "C13":
+        # Deferred classes: declared before their module is imported (package sub-module and top-level module)
+        os.makedirs(tlc.BUILD, exist_ok=True)
+        dres = pool.run(workers.deferred_tables, [{"id": f"def{k}", "n": k, "dir": tlc.BUILD} for k in range(2)], procs=2)
+        for dr in dres:
+            n2 = len(dr["types"])
+            tab2 = {"types": dr["types"], "order": [dr["rows"][str(i)]["order"] for i in range(1, n2 + 1)],
+                    "subtt": [dr["rows"][str(i)]["subtt"] for i in range(1, n2 + 1)], "parents": dr["parents"], "attrs": dr["attrs"],
+                    "equiv": [], "rows": [{k: v for k, v in dr["rows"][str(i)].items() if k in ("clssub", "dispatch")} for i in range(1, n2 + 1)],
+                    "rowids": {str(i): 1 for i in range(1, n2 + 1)}}
+            d2 = tlc.scratch_dir("types")
+            path2 = os.path.join(d2, "tab.json")
+            with open(path2, "w") as f:
+                json.dump(tab2, f)
+            try:
+                r2 = tlc.run_tlc("Trace_Types", "Trace_Types.cfg", env={"VF_CASES": path2}, timeout=600)
+            finally:
+                shutil.rmtree(d2, ignore_errors=True)
+            rep.add_tlc(r2, "judge Trace_Types (Deferred universe)")
+            if r2.rc != 0 or not r2.finished:
+                rep.machinery_failure("Trace_Types (Deferred) failed: " + r2.out[-800:])
+                continue
+            rep.evaluations += 12
+            for s_ in r2.printed:
+                if s_.startswith("VERDICT|"):
+                    parts = s_.split("|")
+                    for rej in static.rejections({"clause": parts[2], "flags": {}}):
+                        if rej["clause"].startswith("C13"):
+                            i2 = int(parts[1][1:])
+                            rep.rejected(rej["clause"], {"kind": "deferred", "type": dr["types"][i2 - 1], "row": dr["rows"][str(i2)], "case_id": dr["id"]}, {})
+            if dr["pre"] != {"d1": "O", "d2": "O"}:
+                rep.rejected("C13:applicable_iff_sat.deferred_before_import", {"kind": "deferred", "pre": dr["pre"]}, {})
+            if not dr["loaded_returns_class"]:
+                rep.rejected("C13:deferred_loaded_is_class", {"kind": "deferred"}, {})
     rep.sample({"types": T[:12], "order_row_1": rows["1"]["order"][:12]})
     rep.sample({"type": T[n - 1], "order_row": rows[str(n)]["order"][:20]})
     rep.rule = (
